@@ -256,7 +256,7 @@ def chainModel : List (String × WOpts) → Nat → Aln → String
       | some (.ok (some a')) => chainModel rest (k + 1) a'
       | some _ => s!"err-step {k}"
 
-def handle : Handler := fun op args impl =>
+def handle0 : Handler := fun op args impl =>
   match op, args with
   | "parse", ["partition", len, hex] => do
     let bs ← unhexz hex
@@ -371,6 +371,9 @@ def handle : Handler := fun op args impl =>
             | none => "unmodelled"
             | some r => if r.startsWith "fmt=" then r else "err"
     some ⟨m, verdict⟩
+  | "filechunks", _ =>
+    -- strings written one after the other through io/utils read back as their concatenation (plain / .gz / .xz)
+    some ⟨"same", if impl == "same" then "pass" else "fail:file-holds-other-bytes-than-written"⟩
   | "multirt", [w, o, xs] => do
     let w ← decWOpts w
     let o ← decPOpts o
@@ -404,5 +407,11 @@ def handle : Handler := fun op args impl =>
         | some a0 => chainModel st 0 ⟨a0, b.length, b.rows⟩
     some ⟨m, verdict⟩
   | _, _ => none
+
+/-- `multirtf` (the stream written to a plain / .gz / .xz file, one write per alignment) is judged as `multirt` -/
+def handle : Handler := fun op args impl =>
+  match op, args with
+  | "multirtf", [_ext, w, o, xs] => handle0 "multirt" [w, o, xs] impl
+  | _, _ => handle0 op args impl
 
 end Gv.Oracle.FmtOps
